@@ -1420,10 +1420,11 @@ func v12GenAcceptorCase(t *rapid.T) *v12Case {
 			victims = victims[:rapid.IntRange(1, len(victims)).Draw(t, "victimCount")]
 			delayed := map[[2]int]bool{}
 			var stale []v12Step
+			designate := rapid.IntRange(0, len(c.Rounds)-1).Draw(t, "designatedWinner") // its messages are never delayed
 			for _, v := range victims {
 				epilogue = append(epilogue, v12Step{Op: "restart", To: v})
 				for r := range c.Rounds {
-					if rapid.IntRange(0, 3).Draw(t, "staleProp") != 0 {
+					if r != designate && rapid.IntRange(0, 3).Draw(t, "staleProp") != 0 {
 						delayed[[2]int{r, v}] = true
 						stale = append(stale, v12Step{Op: "prop", Round: r, To: v}, v12Step{Op: "commit", Round: r, To: v})
 					}
